@@ -1,0 +1,7 @@
+//go:build !verif
+
+package bitcoin_reader
+
+// simYield marks a scheduling point for the deterministic simulation harness. Without the "verif"
+// build tag it does nothing.
+func simYield(site string) {}
